@@ -21,7 +21,7 @@ def load(R):
     R.contract(N + "list_functions", prop="C19", types={"self": NS, "cluster_name": TOpt(TStr)}, returns=TList(TObj()), ensures=["len(result) == 0"])
     R.contract(N + "read_result", prop="C19", types={"self": NS, "memento": M}, returns=TObj(), ensures=["False"], raises={"ValueError": ["forall(obj, lambda m: m.content_key == old(m.content_key))"]})
     R.contract(N + "read_metadata", prop="C19", types={"self": NS, "fn_with_arg_hash": FWH, "key": TStr, "retry_on_none": TBool}, returns=TObj(), ensures=["result is None"])
-    R.contract(N + "memoize", prop="C19", types={"self": NS, "key_override": TOpt(TStr), "memento": M, "result": TObj()},
+    R.contract(N + "memoize", prop="C19", modifies=["heap:content_key"], types={"self": NS, "key_override": TOpt(TStr), "memento": M, "result": TObj()},
                ensures=["memento.content_key is None", "forall(obj, lambda m: implies(not same(m, memento), m.content_key == old(m.content_key)))"])
     # the null runner never executes anything: it raises, and no opaque callable (a function body) is invoked on the way
     R.contract("runner_null:NullRunnerBackend.batch_run", prop="C19",
